@@ -9,6 +9,9 @@ Sources of nondeterminism and how each is owned:
     seed (interposed `getrandom`), so every HashMap/HashSet in typify-impl iterates in a seed-dependent order. Oracle:
     byte-identical tokens across seeds. This leg enumerates seeds; it is NOT exhaustive over all 2^128 keys and is reported
     separately in the evidence. An audit lists every Hash(Map|Set) token in non-test code of the three crates.
+ 4. process history (state a process keeps between type spaces: statics, thread-locals, caches): every document is also converted
+    as one job of a single-threaded process that works through the WHOLE document list, in list order and in reverse order;
+    the output must equal the one the document gets in its other processes.
 Documents: the depth-2 space, C07's recursion graphs (cycle breaking is order sensitive) and a diamond family in which a
 definition outside a cycle reaches it through two children."""
 import itertools
@@ -245,6 +248,30 @@ def execute(cases_, tier, seed):
         elif base_tokens[c["key"]] != next(iter(distinct)):
             res.violations.append(Violation(c["key"], "hash-seed", "%s: seeded process output differs from the unseeded one" % c["id"], c, expected="identical",
                                             observed=_first_diff(base_tokens[c["key"]], next(iter(distinct))), features={"id": c["id"].split(":")[0]}))
+    # 4: process history. The output is a function of settings and schema, not of what the process converted before: every document is converted
+    # in ONE adapter process (single thread) that works through the whole list, once in list order and once in reverse order, so each document is
+    # preceded by the documents before it in one run and by the documents after it in the other; both must equal the base output.
+    n_hist = 0
+    if len(cases_) > 1:
+        env0 = dict(os.environ, LD_PRELOAD=LIBGR, VERIF_HASH_SEED="0")
+        orders = (("list-order", list(cases_)), ("reverse-order", list(cases_[::-1])))
+        from concurrent.futures import ThreadPoolExecutor as _TPE
+        with _TPE(max_workers=2) as ex:
+            hres = list(ex.map(lambda o: adapter._run_chunk([{"id": c["key"], "settings": c["settings"], "ops": [{"root": c["doc"]}], "want": ["tokens"]} for c in o[1]], env0), orders))
+        for (label, order), ha in zip(orders, hres):
+            for pos, c in enumerate(order):
+                a = ha.get(c["key"]) or {}
+                op = (a.get("ops") or [{}])[0]
+                tok = a.get("tokens") if op.get("status") == "ok" else "<%s:%s>" % (op.get("status"), op.get("msg"))
+                n_hist += 1
+                res.transitions += 1
+                if a.get("abort") and not (ans[c["key"] + "|base"]).get("abort"):
+                    continue   # an abort ends the process; the remainder runs in a fresh one (the history restarts), which is still a history
+                if tok != base_tokens[c["key"]]:
+                    res.violations.append(Violation(c["key"], "process-history", "%s: output differs when the document is converted as number %d of one process (%s) from its output in another process"
+                                                    % (c["id"], pos + 1, label), c, expected="byte-identical output whatever the process converted before",
+                                                    observed={"order": label, "position": pos + 1, "first_difference": _first_diff(base_tokens[c["key"]], tok)},
+                                                    features={"id": c["id"].split(":")[0]}, items=[label]))
     # 3b: the front-ends in fresh processes under hash seeds: the real cargo-typify binary, and rustc expanding the real macro
     # (its MacroSettings maps and the impls HashSet are filled by serde_tokenstream in hash order)
     n_fe = 0
@@ -300,11 +327,11 @@ def execute(cases_, tier, seed):
                                                 observed={"seeds": [g[0][0], g[1][0]]}, features={"id": what.split(":")[0]}))
     sites = audit()
     res.evaluations = res.transitions
-    res.extra.update({"text_variants": n_variants, "documents_with_capped_variants": n_capped, "hash_seed_runs": n_seed_runs, "hash_seeds": nseeds, "front_end_seed_runs": n_fe,
+    res.extra.update({"process_history_runs": n_hist, "text_variants": n_variants, "documents_with_capped_variants": n_capped, "hash_seed_runs": n_seed_runs, "hash_seeds": nseeds, "front_end_seed_runs": n_fe,
                       "hash_seed_leg": "seed enumeration, not exhaustive over the key space; excluded from the exhaustive claim",
                       "hash_collection_sites_audit": sites})
     res.samples = [{"id": c["id"], "doc": c["doc"]} for c in cases_[:: max(1, len(cases_) // 4)]][:4]
-    res.bound = "tier=%s: %d documents; key orders at <=%d object nodes (all permutations for <=4 keys) + 3 whitespace styles (cap %d variants/document); %d hash seeds" % (
+    res.bound = "tier=%s: %d documents; key orders at <=%d object nodes (all permutations for <=4 keys) + 3 whitespace styles (cap %d variants/document); %d hash seeds; every document also as part of one process over the whole list in 2 orders" % (
         tier, len(cases_), k, cap, nseeds)
     res.assumptions = ["std's RandomState takes its keys from getrandom(), interposed by LD_PRELOAD (verified at setup by a two-seed self-test)",
                        "schemars / serde_json are built without preserve_order, so parsed objects are BTreeMaps"]
